@@ -23,6 +23,7 @@ import (
 	"sync"
 
 	flatbuffers "github.com/google/flatbuffers/go"
+	"github.com/lindb/common/proto/gen/v1/flatMetricsV1"
 	commonseries "github.com/lindb/common/series"
 
 	"github.com/lindb/lindb/constants"
@@ -170,6 +171,10 @@ func (itr *BrokerRowFlatDecoder) rebuild() error {
 		fieldName := simpleFieldItr.NextRawName()
 		if itr.limits.EnableFieldNameLengthCheck() && len(fieldName) > itr.limits.MaxFieldNameLength {
 			return constants.ErrFieldNameTooLong
+		}
+		if fieldType := simpleFieldItr.NextRawType(); fieldType <= flatMetricsV1.SimpleFieldTypeUnSpecified ||
+			fieldType > flatMetricsV1.SimpleFieldTypeFirst {
+			return fmt.Errorf("unknown simple field type: %d", fieldType)
 		}
 		if err := itr.rowBuilder.AddSimpleField(
 			simpleFieldItr.NextRawName(),
